@@ -1108,6 +1108,22 @@ theorem parseMsg_fn {data : List Nat} {msg : Trxd.TxMsg} (h : Trxd.TxMsg.parseMs
   · cases h
   split at h <;> (cases h; exact ⟨fn, rfl⟩)
 
+/-- is this a stale report? -/
+def isStaleEv : Ev → Bool
+  | .stale _ _ => true
+  | _ => false
+
+theorem countP_stale_tickEvents (fn : Nat) (ids : List Nat) (q : List Trxd.TxMsg) (hl : ids.length = q.length) :
+    (tickEvents fn (ids.zip q)).countP isStaleEv = (q.filter (fun m => classify fn m == .stale)).length := by
+  have h := zip_filter_snd (fun m => classify fn m == .stale) ids q hl
+  rw [← h, List.length_map]
+  unfold tickEvents
+  rw [List.countP_append, List.countP_map, List.countP_map]
+  have e1 : (isStaleEv ∘ fun p : Nat × Trxd.TxMsg => Event.emitted p.1 fn) = fun _ => false := rfl
+  have e2 : (isStaleEv ∘ fun p : Nat × Trxd.TxMsg => Event.stale p.1 fn) = fun _ => true := rfl
+  rw [e1, e2]
+  simp
+
 /-! ### concrete worlds for the non-vacuity examples of Props/C03 -/
 
 /-- two running, tuned transceivers (BTS side and MS side), clock generator running at frame `c` -/
